@@ -217,6 +217,7 @@ let do_sparse args =
         | "i" -> OInsert (nat a.(1), nat a.(2)) | "f" -> OFind (nat a.(1), nat a.(2)) | "d" -> ODelete (nat a.(1), nat a.(2))
         | "c" -> OClear | "y" -> OCopy (nat a.(1), nat a.(2), junk_of a.(3))
         | "R" -> OCopyRows (nats_dot a.(1), junk_of a.(2)) | "C" -> OCopyCols (nats_dot a.(1), junk_of a.(2))
+        | "r" -> OCopyRowsOpt (nats_dot a.(1), junk_of a.(2)) | "k" -> OCopyColsOpt (nats_dot a.(1), junk_of a.(2))
         | "F" -> OCopyFilled (nats_dot a.(1), nats_dot a.(2), nat a.(3), nat a.(4))
         | "D" -> ODenseRoundTrip | "e" -> OEmptyRow (nat a.(1)) | "E" -> OEmptyCol (nat a.(1)) | "w" -> OWeightRow (nat a.(1))
         | _ -> failwith "op" in
@@ -278,7 +279,7 @@ let do_dense args =
         | "s" -> DSet (nat a.(1), nat a.(2), a.(3) <> "0") | "g" -> DGet (nat a.(1), nat a.(2)) | "f" -> DFlip (nat a.(1), nat a.(2))
         | "c" -> DClear | "y" -> DCopy (nat a.(1), nat a.(2), junk_of a.(3))
         | "R" -> DCopyRows (nats_dot a.(1), junk_of a.(2)) | "C" -> DCopyCols (nats_dot a.(1), junk_of a.(2))
-        | "x" -> DXorRows (nat a.(1), nat a.(2)) | "w" -> DRowWeight (nat a.(1)) | "W" -> DColWeight (nat a.(1)) | "e" -> DRowEmpty (nat a.(1))
+        | "x" -> DXorRows (nat a.(1), nat a.(2)) | "w" -> DRowWeight (nat a.(1)) | "W" -> DColWeight (nat a.(1)) | "e" -> DRowEmpty (nat a.(1)) | "I" -> DRowWeightIF (nat a.(1), nat a.(2))
         | _ -> failwith "op" in
       let (m', res) = dense_step !m op in
       m := m';
@@ -318,6 +319,7 @@ let () =
       | "Z" :: args -> print_endline (do_ev args)
       | "Y" :: args -> print_endline (do_bem args)
       | "A" :: args -> print_endline (do_api args)
+      | "U" :: size :: ws -> print_endline (match hweight_array_run (List.map z_of_string ws) (z_of_string size) with Some z -> "R " ^ string_of_z z | None -> "R UB")
       | _ -> print_endline "BADREQ"
     done
   with End_of_file -> ()
